@@ -105,6 +105,8 @@ pub enum Ev {
     Noise { form: u8, text: u8, indent: u8 },
     Decoy { tpl: u16, tag: u8 },
     Blank,
+    /// a valid line of the language carrying `id:<v>` in the middle, after multi-byte text (regex-key rules)
+    KeyLine(u16),
 }
 
 pub const NOISE: &[&str] = &[
@@ -368,6 +370,25 @@ fn fill(tpl: &str, n: usize) -> String {
     tpl.replace("{n}", &n.to_string())
 }
 
+/// A valid line of the language that carries the text `é日 id:<v> t` (in a trailing comment where the language
+/// has line comments, else in markup / a block comment).
+pub fn key_line(lang: &Lang, n: usize, v: u16) -> String {
+    let payload = format!("é日 id:{} t", v % 50);
+    if lang.markdown {
+        return format!("text {n} {payload}");
+    }
+    match lang.id {
+        "html" => format!("<p>{payload}</p>"),
+        "xml" => format!("<i>{payload}</i>"),
+        "css" => format!("/* {payload} */"),
+        "make" | "gomod" => format!("{} {payload}", lang.line[0]),
+        _ => {
+            let code = lang.code.iter().find(|c| !c.contains('\n')).unwrap().replace("{n}", &n.to_string());
+            if lang.trailing_line { format!("{code} {} {payload}", lang.line[0]) } else { format!("{} {payload}", lang.line[0]) }
+        }
+    }
+}
+
 /// Balances the event list: a Close without an open block is dropped, missing Closes are appended.
 pub fn balance(events: &[Ev]) -> Vec<Ev> {
     let mut depth = 0usize;
@@ -480,6 +501,11 @@ pub fn build_raw(lang: &Lang, events: &[Ev], crlf: bool) -> Built {
             }
             Ev::Blank => {
                 segs.push(Seg::Raw(String::new()));
+                prev_was_tag = false;
+            }
+            Ev::KeyLine(v) => {
+                counter += 1;
+                segs.push(Seg::Raw(key_line(lang, counter, *v)));
                 prev_was_tag = false;
             }
         }
